@@ -65,15 +65,28 @@ class C13(Check):
         self.inst = {}
         self.termnames = {}
 
-    def lark_for(self, cfg):
-        p = self.inst.get(cfg)
+    def lark_for(self, cfg, salt=0):
+        from sim import seams
+        key = cfg if not salt else '%s#%d' % (cfg, salt)
+        p = self.inst.get(key)
+        if p is not None:
+            return p
+        seams.set_lalr_salt(salt)
+        try:
+            return self._lark_for(key, cfg)
+        finally:
+            seams.set_lalr_salt(0)
+
+    def _lark_for(self, key, cfg):
+        p = self.inst.get(key)
         if p is None:
             if len(self.inst) > 300:
                 for k in [k for k in self.inst if k.startswith('gen:')]:
                     del self.inst[k]
-                    del self.termnames[k]
-            p = self.inst[cfg] = W.build(cfg)
-            self.termnames[cfg] = sorted(t.name for t in p.terminals if t.name not in p.ignore_tokens)
+                    self.termnames.pop(k, None)
+            p = self.inst[key] = W.build(cfg)
+            self.termnames[key] = sorted(t.name for t in p.terminals if t.name not in p.ignore_tokens)
+            self.termnames[cfg] = self.termnames[key]
         return p
 
     # ------------------------------------------------------------------ plan
@@ -98,7 +111,7 @@ class C13(Check):
         for _ in range(n):
             o = rng.choices(names, weights)[0]
             ops.append([rng.randrange(1 << 16), o, rng.randrange(1 << 16)])
-        return {'config': cfg, 'start': start, 'text': text, 'root': root, 'ops': ops}
+        return {'config': cfg, 'start': start, 'text': text, 'root': root, 'ops': ops, 'lalr_salt': rng.randrange(4)}
 
     # ------------------------------------------------------------------ execution
     def _root(self, p, e, plan):
@@ -210,7 +223,7 @@ class C13(Check):
     def execute(self, plan, forced=None):
         out = Outcome()
         cfg = plan['config']
-        p = self.lark_for(cfg)
+        p = self.lark_for(cfg, plan.get('lalr_salt', 0))
         e = W.ENTRIES[cfg.partition('/')[0]]
         IMM = _IMM()
         terms = self.termnames[cfg]
